@@ -28,7 +28,7 @@ pub mod verif_replay {
             .map_err(|e| format!("{e:?}"))
     }
     pub fn export_and_merge(path: &str, name: &str, text: &str) -> Result<(), String> {
-        super::export_and_merge(PathBuf::from(path), name.to_owned(), text.to_owned()).map_err(|e| format!("{e:?}"))
+        super::export_and_merge(PathBuf::from(path), name.to_owned(), text.to_owned()).map(|_| ()).map_err(|e| format!("{e:?}"))
     }
     pub fn registry_reset() {
         super::get_export_paths().lock().unwrap_or_else(|e| e.into_inner()).clear();
